@@ -128,6 +128,9 @@ def check_log(path, run_name, stdout_is_tty, res, counters, seen, full, stderr_i
                 res.violation("c09:auto-current-choice", "%s: auto(..).current_choice() = %s, expected %s" % (ctx, d["auto_current_choice"], current_of(want)), check="c09", case=case)
             if d["new_global_current_choice"] != current_of(want):
                 res.violation("c09:new-global-current-choice", "%s: new(stream, global()).current_choice() = %s, expected %s" % (ctx, d["new_global_current_choice"], current_of(want)), check="c09", case=case)
+            # (Auto = the child did not make this observation for this stream kind)
+            if d.get("new_auto_current_choice", "Auto") not in ("Auto", current_of(want)):
+                res.violation("c09:new-auto-current-choice", "%s: new(stream, ColorChoice::Auto).current_choice() = %s, expected %s" % (ctx, d["new_auto_current_choice"], current_of(want)), check="c09", case=case)
             want_text = "X" if want == "Never" else PROBE_TEXT
             if d["adapted"] != want_text:
                 res.violation("c09:to_adapted_string", "%s: to_adapted_string gives %r, expected %r" % (ctx, d["adapted"], want_text), check="c09", case=case)
